@@ -272,7 +272,7 @@ for _k, _v in PROPS.items():
 T8 = {
     "C05": "FieldVal.SetByteSlice (the wrapper around the SetBytes kernel)",
     "C06": "the non-kernel ModNScalar wrappers Mul, Add, Negate, Square, SquareVal, Bytes, SetByteSlice, InverseValNonConst, InverseNonConst",
-    "C01": "sign, signRFC6979 (retry loop), Sign, SignCompact, PrivateKey.PubKey, fieldToModNScalar",
+    "C01": "sign, signRFC6979 (retry loop), Sign, SignCompact, PrivateKey.Sign (crypto.Signer front end), PrivateKey.PubKey, fieldToModNScalar",
     "C02": "Signature.Verify, modNScalarToField",
     "C03": "splitK, naf, ScalarMultNonConst, ScalarBaseMultNonConst",
     "C07": "Signature.RecoverPublicKey, RecoverCompact, Signature.BruteforceRecoveryCode, Signature.Export, Signature.ExportCompact",
